@@ -628,7 +628,15 @@ func (k Keeper) GetMinDeposit(ctx sdk.Context, pricing types.Pricing) (sdk.Coins
 	}
 
 	// minimum deposit = max(price * minDepositMultiple, minDepositParam)
-	minDeposit := sdk.NewCoins(sdk.NewCoin(baseDenom, basePrice.Mul(minDepositMultiple)))
+	minDepositAmt, err := basePrice.SafeMul(minDepositMultiple)
+	if err != nil {
+		return nil, errorsmod.Wrapf(
+			types.ErrInvalidPricing,
+			"price %s times minimum deposit multiple %s: %s",
+			basePrice, minDepositMultiple, err,
+		)
+	}
+	minDeposit := sdk.NewCoins(sdk.NewCoin(baseDenom, minDepositAmt))
 	if !minDeposit.IsZero() && minDeposit.IsAllLT(minDepositParam) {
 		minDeposit = minDepositParam
 	}
